@@ -637,3 +637,32 @@ Proof.
   intros Hc f Hf. cbn [step]. rewrite Hc. unfold remote_write. cbn [with_refctr n_connected n_wrote]. rewrite Hc, Hf.
   cbn [fst with_wrote n_wrote n_refctr with_refctr]. split; reflexivity.
 Qed.
+
+(* ... and only those: a name held by another process still resolves to that process after the termination (also when
+   the terminating process held the same name earlier, gave it up, and the other process took it) *)
+Lemma lookup_filter_other p : forall ns name q, lookup_name name ns = Some q -> pid_eqb q p = false ->
+  lookup_name name (filter (fun np => negb (pid_eqb (snd np) p)) ns) = Some q.
+Proof.
+  induction ns as [|[n r] ns IH]; intros name q H Hq; [discriminate|]. cbn [lookup_name] in H. cbn [filter snd].
+  destruct (eq_bytes n name) eqn:En.
+  - injection H as ->. rewrite Hq. cbn [negb lookup_name]. now rewrite En.
+  - destruct (pid_eqb r p); cbn [negb]; [now apply IH|]. cbn [lookup_name]. rewrite En. now apply IH.
+Qed.
+
+Theorem others_keep_their_names st x name q :
+  lookup_name name (n_names st) = Some q -> pid_eqb q (pp x) = false -> lookup_name name (n_names (terminate st x)) = Some q.
+Proof. cbn [terminate n_names]. apply lookup_filter_other. Qed.
+
+(* a name released by its holder and registered again resolves to the new holder, whatever the old holder does next *)
+Theorem released_name_belongs_to_the_new_holder cfg st name q x :
+  lookup_name name (n_names st) = None -> pid_eqb q (pp x) = false ->
+  let st' := fst (step cfg st (ORegister name q)) in
+  lookup_name name (n_names st') = Some q /\ lookup_name name (n_names (terminate st' x)) = Some q.
+Proof.
+  intros Hn Hq. cbn [step]. rewrite Hn. cbn [fst n_names].
+  assert (H : lookup_name name (n_names st ++ [(name, q)]) = Some q).
+  { clear Hq. revert Hn. generalize (n_names st). induction l as [|[n r] l IH]; cbn [lookup_name app].
+    - intros _. now rewrite eq_bytes_refl.
+    - destruct (eq_bytes n name); [discriminate|exact IH]. }
+  split; [exact H|]. apply others_keep_their_names; [exact H|exact Hq].
+Qed.
